@@ -1453,7 +1453,7 @@ impl Scenario for EmfHistory {
             } else {
                 J::Null
             };
-            let sample = if jb(&cfg, "sampled", false) && rng.chance(0.7) { json!([*rng.pick(&[1.0, 0.5, 0.25, 0.001, 0.001, 0.0, -0.5]), rng.next_u64()]) } else { J::Null };
+            let sample = if jb(&cfg, "sampled", false) && rng.chance(0.7) { json!([*rng.pick(&[1.0, 0.5, 0.25, 0.001, 0.001, 0.0, -0.5, 5.960_464_5e-8, 2.980_232_2e-8, 1e-8, 1e-30, 0.999_999_9]), rng.next_u64()]) } else { J::Null };
             // now and then the long-lived formatter is replaced by its own clone (same configuration, a history)
             calls.push(json!({"entry": entry, "fault": fault, "sample": sample, "clone_first": rng.chance(0.06)}));
         }
